@@ -569,6 +569,7 @@ class Interp(object):
         self.promoted_cache = {}
         self.trace_calls = []    # (depth, callee path) in call order
         self.summaries_used = set()
+        self.uf_used = []
         self.opaque_fns = {}     # key -> python callable(interp, frame, args, state) for rule-specific stubs
         from . import stdmodel
         self.std = stdmodel
@@ -1133,6 +1134,18 @@ class Interp(object):
         return results
 
     join_on_top = False
+    uf_fallback = False
+
+    def uf_arg(self, a, st):
+        """arguments of an uninterpreted call: pointers are replaced by what they point to"""
+        if isinstance(a, Ptr):
+            try:
+                if a.sl is not None:
+                    return Arr(self.slice_elems(st, a))
+                return self.read_ptr(st, a)
+            except Undecided:
+                return TopV("uf arg")
+        return a
 
     # ------------------------------------------------------------------ calls
     def callee_env(self, fr, callee_body, rargs):
@@ -1171,6 +1184,16 @@ class Interp(object):
             env = self.callee_env(fr, body, r["args"])
             if body["kind"] == "Closure":
                 return self.call_closure(body, args, st, fr, pc)
+            if self.uf_fallback and not any(ty["k"] == "ref" and ty["mut"] and ty["t"].get("path") != "std::fmt::Formatter" for ty in (body.get("sig") or {}).get("inputs", [{"k": "ref", "mut": True, "t": {}}])):
+                # a callee that only reads its arguments may be kept as an uninterpreted function
+                # of its (abstract) arguments when it cannot be modelled
+                snap = st.fork()
+                try:
+                    return self.call_mir(body, body["mir"], args, st, env, fr.depth + 1, pc)
+                except Undecided as e:
+                    self.uf_used.append((path, e.cause))
+                    st.mem = snap.mem
+                    return self.ret(st, pc, Opaque("uf", (path,) + tuple(self.uf_arg(a, st) for a in args)))
             return self.call_mir(body, body["mir"], args, st, env, fr.depth + 1, pc)
         if r is None:
             # trait method on a generic parameter: resolve through the environment
